@@ -7,7 +7,8 @@ KEYS = ['parso.python.prefix.PrefixPart.end_pos', 'parso.python.prefix.PrefixPar
         'parso.python.tokenize._split_illegal_unicode_name', 'parso.python.tokenize._find_fstring_string',
         'parso.python.prefix.split_prefix', 'parso.python.tokenize.tokenize_lines.dedent_if_necessary',
         'parso.python.tokenize.FStringNode.__init__', 'parso.python.tokenize.FStringNode.open_parentheses',
-        'parso.python.tokenize.FStringNode.close_parentheses', 'parso.python.tokenize.FStringNode.is_in_expr']
+        'parso.python.tokenize.FStringNode.close_parentheses', 'parso.python.tokenize.FStringNode.is_in_expr',
+        'parso.python.tokenize.FStringNode.is_in_format_spec']
 
 
 def _regex():
